@@ -92,6 +92,7 @@ func runE6(p *Program, sp *Spec, c *Collector) {
 	for _, nk := range t.NestedKills {
 		runNestedKills(p, sp, c, nk)
 		runCrossBrackets(p, sp, c, nk)
+		runResultOverwrite(p, sp, c, nk)
 	}
 	for _, rc := range t.RuleCoverage {
 		runRuleCoverage(p, sp, c, rc)
@@ -487,6 +488,16 @@ func runMustCall(p *Program, c *Collector, mc MustCallSpec) {
 		for f := range p.reach([]*ssa.Function{fn}) {
 			if m.targets[f] {
 				reached = true
+			}
+			// a recording effect named as a store (store:<global>, storefield:<global>.<F>)
+			if len(m.storeTargets) > 0 {
+				for _, b := range f.Blocks {
+					for _, in := range b.Instrs {
+						if st, ok := in.(*ssa.Store); ok && m.storeTargets[storeTargetName(p, st)] {
+							reached = true
+						}
+					}
+				}
 			}
 		}
 		key = "sibling:" + mc.Func + " -> " + strings.Join(names, "|")
@@ -1907,6 +1918,105 @@ func runRuleCoverage(p *Program, sp *Spec, c *Collector, rc RuleCoverageSpec) {
 			} else {
 				c.Ob(rc.Props, "E6.rule-coverage", key, Violated, rc.What+": the grammar also spells this as rule "+r+", which contains none of the rules the listener handles and has no callback of its own: what is written that way is never seen", p.FuncPos(ms[0]), false)
 			}
+		}
+	}
+}
+
+// ---------------------------------------------------------------------------------------------
+// result overwrite: the list a listener hands out at the end (its getter returns a package-level slice) is what the callbacks
+// accumulate during the walk. A callback (or a helper it calls) that assigns that variable a value which does not build on the
+// variable itself replaces what earlier occurrences of the rule contributed — the second `dependencies { }` block of a build
+// script replaced the first.
+func runResultOverwrite(p *Program, sp *Spec, c *Collector, nk NestedKillSpec) {
+	ms := p.methodsDeclaredOn(nk.Pkg, nk.Listener)
+	if len(ms) == 0 {
+		return
+	}
+	results := map[*ssa.Global]string{}
+	for _, fn := range ms {
+		if _, _, isCb := callbackRule(fn.Name()); isCb || len(fn.Blocks) == 0 {
+			continue
+		}
+		for _, b := range fn.Blocks {
+			for _, in := range b.Instrs {
+				if ret, ok := in.(*ssa.Return); ok {
+					for _, r := range ret.Results {
+						if g := loadedGlobal(r); g != nil && p.Own[g.Pkg.Pkg] {
+							if _, isSlice := g.Type().Underlying().(*types.Pointer).Elem().Underlying().(*types.Slice); isSlice {
+								results[g] = fn.Name()
+							}
+						}
+					}
+				}
+			}
+		}
+	}
+	var gs []*ssa.Global
+	for g := range results {
+		gs = append(gs, g)
+	}
+	sort.Slice(gs, func(i, j int) bool { return gs[i].Name() < gs[j].Name() })
+	for _, g := range gs {
+		key := "resultoverwrite:" + nk.Pkg + "." + nk.Listener + " " + g.Name()
+		var bad ssa.Instruction
+		var where string
+		seen := map[*ssa.Function]bool{}
+		var visit func(f *ssa.Function, cb string, depth int)
+		visit = func(f *ssa.Function, cb string, depth int) {
+			if seen[f] || depth > 3 || len(f.Blocks) == 0 {
+				return
+			}
+			seen[f] = true
+			for _, b := range f.Blocks {
+				for _, in := range b.Instrs {
+					switch x := in.(type) {
+					case *ssa.Store:
+						if x.Addr != ssa.Value(g) || bad != nil {
+							continue
+						}
+						// builds on itself? (append(g, …), g[:n])
+						builds := false
+						var walk func(v ssa.Value, d int)
+						walk = func(v ssa.Value, d int) {
+							if d > 6 || v == nil || builds {
+								return
+							}
+							if loadedGlobal(v) == g {
+								builds = true
+								return
+							}
+							if i2, ok := v.(ssa.Instruction); ok {
+								var ops []*ssa.Value
+								for _, o := range i2.Operands(ops) {
+									if o != nil && *o != nil {
+										walk(*o, d+1)
+									}
+								}
+							}
+						}
+						walk(x.Val, 0)
+						if !builds {
+							bad, where = in, cb
+						}
+					case *ssa.Call:
+						if callee := x.Call.StaticCallee(); callee != nil && callee.Pkg != nil && p.Own[callee.Pkg.Pkg] {
+							if _, _, isCb := callbackRule(callee.Name()); !isCb || callee.Signature.Recv() == nil {
+								visit(callee, cb, depth+1)
+							}
+						}
+					}
+				}
+			}
+		}
+		for _, fn := range ms {
+			if _, _, isCb := callbackRule(fn.Name()); isCb {
+				visit(fn, fn.Name(), 0)
+			}
+		}
+		if bad != nil {
+			c.Ob(nk.Props, "E6.result-overwrite", key, Violated, nk.What+": "+g.Name()+" is the list "+results[g]+" hands out, and "+where+" (or a helper it calls) assigns it a value that does not build on what it already holds: what earlier occurrences contributed is replaced", p.InstrPos(bad), false)
+		} else {
+			c.Ob(nk.Props, "E6.result-overwrite", key, Discharged, g.Name()+" (handed out by "+results[g]+") is only ever extended by the callbacks", "", true)
 		}
 	}
 }
